@@ -58,7 +58,24 @@ func kwn(v string) *Node                    { return &Node{K: "tok", T: "kw", V:
 func stm(items ...*Node) *Node              { return &Node{K: "stmt", Items: items} }
 func grp(name string, items ...*Node) *Node { return &Node{K: "grp", Name: name, Items: items} }
 
+// bigDecls: n declarations var generatedValueI = I (a File of several thousand top-level items renders far more than 64 KiB)
+func bigDecls(n int) []*Node {
+	out := make([]*Node, 0, n)
+	for i := 0; i < n; i++ {
+		out = append(out, stm(kwn("var"), idn("generatedValue"+strconv.Itoa(i)), opn("="), lit(strconv.Itoa(i))))
+	}
+	return out
+}
+
+// pools of trees: file bodies and fragments, syntactically valid or not; every fourth one is LARGE (thousands of items,
+// output of some 200 KiB: more than any buffer or block size a library would pick)
 func outputBodies(valid bool, k int) []*Node {
+	if k%4 == 2 {
+		if valid {
+			return append(bigDecls(6000), stm(kwn("var"), idn("_"), opn("="), grp("qual", &Node{K: "tok", T: "pkg", V: "x/d"}, idn("V"))))
+		}
+		return append(bigDecls(1200), stm(kwn("var"), idn("a"), opn("="), opn("="), lit("1")))
+	}
 	if valid {
 		pool := [][]*Node{
 			{stm(kwn("var"), idn("a"), opn("="), lit("1"))},
